@@ -19,22 +19,21 @@ def indices(s: slice, length: int) -> tuple[int, int | None, int]:
     return start, stop, step
 
 def offset_slice_indices_lsb0(key: slice, length: int) -> slice:
-    start, stop, step = indices(key, length)
-    if step is not None and step < 0:
-        if stop is None:
-            new_start = start + 1
-            new_stop = None
-        else:
-            first_element = start
-            last_element = start + ((stop + 1 - start) // step) * step
-            new_start = length - last_element
-            new_stop = length - first_element - 1
-    else:
-        first_element = start
-        # The last element will usually be stop - 1, but needs to be adjusted if step != 1.
-        last_element = start + ((stop - 1 - start) // step) * step
-        new_start = length - last_element - 1
+    # The slice selects the lsb0 positions r[0], r[1], ... and lsb0 position p is msb0 position length - 1 - p.
+    # The selected bits keep their stored order, so the msb0 slice runs from r[-1] to r[0].
+    start, stop, step = key.indices(length)
+    r = range(start, stop, step)
+    if len(r) == 0:
+        # Nothing is selected, but keep the position so that assigning to the slice inserts in the right place.
+        return slice(length - start, length - start, key.step)
+    first_element, last_element = r[0], r[-1]
+    new_start = length - last_element - 1
+    if step > 0:
         new_stop = length - first_element
+    else:
+        new_stop = length - first_element - 2
+        if new_stop < 0:
+            new_stop = None
     return slice(new_start, new_stop, key.step)
 
 
